@@ -208,7 +208,7 @@ def check_exit(run, db):
 def check_get(run, db):
     n = 0
     for f in tmp_fns(db):
-        if f.short == 'get_temporary_stack' or (f.kind == 'ctor' and 'temporary_stack_initializer' in f.cls and f.params and f.params[0]['name'] == 'initial_size'):
+        if f.short == 'get_temporary_stack' or (f.kind == 'ctor' and 'temporary_stack_initializer' in f.cls and f.params and f.params[0]['t'] in ('unsigned long', 'std::size_t', 'size_t')):
             n += 1
             probs = []
             for s in fwd.summarize(f, db=db, roles={0: 'initial_size'}, no_forward=True):
